@@ -12,7 +12,6 @@ pub struct Regress {
     pub run: Box<dyn Fn(bool) -> Eval>,
 }
 
-#[allow(dead_code)]
 fn leaf(script: &[Step]) -> ChildSpec {
     ChildSpec::Leaf(LeafSpec { script: script.to_vec(), always: false, hint: false })
 }
@@ -38,7 +37,8 @@ fn co(prop: &'static str, name: String, case: crate::costream::CoCase) -> Regres
     }
 }
 
-pub fn cases(prop: &str) -> Vec<Regress> {
+pub fn cases(prop: &str, tier: Tier) -> Vec<Regress> {
+    let _ = tier;
     let mut v = Vec::new();
     match prop {
         "C08" => {
@@ -81,7 +81,33 @@ pub fn cases(prop: &str) -> Vec<Regress> {
                 }
             }
         }
+        "C17" => {
+            // rotation state that only goes wrong after very many polls (a
+            // counter that wraps at 2^8 or 2^16), or for very many inputs
+            let always = || ChildSpec::Leaf(LeafSpec { script: vec![], always: true, hint: false });
+            let long = |c: Container, n: usize, polls: u32| {
+                let mut case = comb_case(Family::Merge, c, (0..n).map(|_| always()).collect());
+                case.fair_polls = polls;
+                case
+            };
+            v.push(comb("C17", "long-run-tuple3-70000-polls", long(Container::Tuple, 3, 70_000)));
+            v.push(comb("C17", "long-run-array5-70000-polls", long(Container::Array, 5, 70_000)));
+            #[cfg(feature = "has-alloc")]
+            {
+                v.push(comb("C17", "long-run-vec3-70000-polls", long(Container::Vec, 3, 70_000)));
+                v.push(comb("C17", "vec-300-inputs-900-polls", long(Container::Vec, 300, 900)));
+                v.push(comb("C17", "vec-65537-inputs-131100-polls", long(Container::Vec, 65_537, 131_100)));
+            }
+        }
+        #[cfg(feature = "has-alloc")]
+        "C08" if false => {}
         _ => {}
+    }
+    #[cfg(feature = "has-alloc")]
+    if prop == "C08" {
+        // a merge of more inputs than a two-byte counter can hold
+        let one = || leaf(&[Step::Yield(true)]);
+        v.push(comb("C08", "merge-vec-65539-inputs-one-item-each", comb_case(Family::Merge, Container::Vec, (0..65_539).map(|_| one()).collect())));
     }
     v
 }
